@@ -199,6 +199,14 @@ func (s *session[H]) doRequest(
 	}
 
 	h, err := s.processResponses(r)
+	if err == nil && h[0].Height() != req.GetOrigin() {
+		// the response must start at the requested height, otherwise it is not the range we asked for
+		err = fmt.Errorf(
+			"header/p2p: requested range from %d, received from %d",
+			req.GetOrigin(),
+			h[0].Height(),
+		)
+	}
 	if err != nil {
 		span.SetStatus(codes.Error, err.Error())
 		logFn := log.Errorw
